@@ -152,6 +152,9 @@ pub struct Cb<'w, 'r, 'gc> {
     pub phase: Phase,
     pub constructing: bool,
     pub colors: BTreeMap<Id, Col>,
+    /// what the last Resurrect op may have been credited: one marking if its target carried no
+    /// mark of this cycle (or its colour is unknown), nothing otherwise
+    pub res_allow: f64,
     pub reach0: BTreeSet<Id>,
     pub clean0: bool,
     pub rep: CbReport,
@@ -515,7 +518,12 @@ impl<'w, 'r, 'gc> Cb<'w, 'r, 'gc> {
             let expect = (d0 - mf * marked as f64).max(0.0);
             let tol = 1e-9 * (1.0 + d0.abs());
             if matches!(op, Op::Resurrect { .. }) {
-                // resurrection is marking work done by the finalizer: collection work, not mutation
+                // resurrection is marking work done by the finalizer: collection work, not mutation.
+                // It is worth one marking, and only of an object that was not marked before (a
+                // weakly marked one was counted when the weak pointer to it was traced)
+                if d0 - d1 > self.res_allow + 1e-9 * (1.0 + d0.abs()) {
+                    self.viol("C10.decrease", format!("allocation_debt went from {d0} to {d1} across {op:?}: the marking work a resurrection does is worth at most {} here (mark_factor {mf})", self.res_allow));
+                }
             } else if marked > 0 && (d1 - expect).abs() <= tol {
                 // KNOWN FINDING: forward barriers mark the child at once and that marking is
                 // credited like any other (DESIGN 6.4); identified by call site and exact amount
@@ -1307,6 +1315,18 @@ impl<'w, 'r, 'gc> Cb<'w, 'r, 'gc> {
         }
         let destructed = self.destructed(t);
         let has_tok = !self.w.sh.objs[&t].toks.is_empty();
+        self.res_allow = {
+            let mf = self.w.sh.arena(a).pacing.mark;
+            if self.w.cfg.coverage {
+                self.refresh_colors();
+                match self.color(t) {
+                    0 | 9 => mf,
+                    _ => 0.0,
+                }
+            } else {
+                mf
+            }
+        };
         self.rep.resurrect_ops += 1;
         self.rep.mutated_by_resurrect = true;
         self.rep.only_barriers = false;
@@ -1502,6 +1522,26 @@ impl<'w, 'r, 'gc> Cb<'w, 'r, 'gc> {
                     self.viol("C19.read", "a trait object made from a cached ZST dispatches to the wrong type".to_string());
                     return;
                 }
+            }
+        }
+        if !sized {
+            // a zero-sized value WITH a destructor: the cache serves it from its one shared
+            // allocation (of another type, which can never destruct it later), so the value handed
+            // in is destructed on the spot - exactly once, as its own type (C04, C19)
+            let (m0, d0) = tok::z_counts();
+            let (zc, zc16) = {
+                let _t = seam::track();
+                if via_static {
+                    (cache.is_cached(cache.alloc_static(mc, tok::ZTok::new())), cache.is_cached(cache.alloc_static(mc, tok::ZTok16::new())))
+                } else {
+                    (cache.is_cached(cache.alloc(mc, tok::ZTok::new())), cache.is_cached(cache.alloc(mc, tok::ZTok16::new())))
+                }
+            };
+            let (m1, d1) = tok::z_counts();
+            self.w.stats.flag("C19.zst-with-destructor");
+            if zc && zc16 && (m1 - m0, d1 - d0) != (2, 2) {
+                self.w.violate_with("C04.never", &["C19.zst-destruct"], format!("two zero-sized values with destructors were handed to ZstCache::alloc{} and served from the cache: {} destructor runs were seen at that point, not 2 (nothing can destruct them later)", if via_static { "_static" } else { "" }, d1 - d0));
+                return;
             }
         }
         let expect = size == 0 && align <= 16;
@@ -1887,6 +1927,39 @@ impl<'w, 'r, 'gc> Cb<'w, 'r, 'gc> {
                         _ => drop(b),
                     }
                 }
+                BKind::TmToks => {
+                    use crate::lay::{Fix0, Fix3, Stride, TypeLenMeta};
+                    // SAFETY: TypeLenMeta is a correct PtrMeta / AllocMeta for [E] with Stride (the
+                    // length is the per-type number); every element is written before assume_init
+                    unsafe {
+                        if n >= 2 {
+                            let mut b = GcBuilder::<[Static<Tok>], Stride, TypeLenMeta>::new_with_type_and_ptr_meta::<Fix3>(());
+                            if stage == BStage::Complete {
+                                let p = b.as_ptr() as *mut Static<Tok>;
+                                made_header = true;
+                                p.write(Static(Tok(first)));
+                                for i in 0..2 {
+                                    p.add(1 + i).write(Static(Tok(first + 1 + i as u32)));
+                                    made_elems += 1;
+                                }
+                                let g = b.assume_init(mc);
+                                if g.len() != 3 {
+                                    raw_content_error = Some(format!("a slice whose length (3) comes from per-type metadata reads length {}", g.len()));
+                                }
+                                completed = Some(gc_arena::Gc::erase(g));
+                            } else {
+                                drop(b)
+                            }
+                        } else {
+                            let b = GcBuilder::<[Static<Tok>], Stride, TypeLenMeta>::new_with_type_and_ptr_meta::<Fix0>(());
+                            if stage == BStage::Complete {
+                                completed = Some(gc_arena::Gc::erase(b.assume_init(mc)));
+                            } else {
+                                drop(b)
+                            }
+                        }
+                    }
+                }
                 BKind::StaticSwh => {
                     let b = GcSliceWithHeaderBuilder::<Static<u64>, Static<u16>>::new(n);
                     match stage {
@@ -2006,7 +2079,7 @@ impl<'w, 'r, 'gc> Cb<'w, 'r, 'gc> {
                     }
                     self.w.z_pending.insert(first, made_elems as u64);
                 }
-                let okind = if matches!(kind, BKind::Swh | BKind::SwhRaw) { Kind::Built { len: n as u8 } } else { Kind::Lay { t: 253, len: 0 } };
+                let okind = if matches!(kind, BKind::Swh | BKind::SwhRaw) { Kind::Built { len: n as u8 } } else if kind == BKind::TmToks { Kind::Lay { t: 252, len: 0 } } else { Kind::Lay { t: 253, len: 0 } };
                 for t in &toks {
                     self.w.tok2obj.insert(*t, first);
                 }
